@@ -13,6 +13,7 @@ fn main() {
         "w_channel" => vh::w_channel::main(rest),
         "w_iter" => vh::w_iter::main(rest),
         "w_close" => vh::w_close::main(rest),
+        "w_instance" => vh::w_instance::main(rest),
         "w_halflock" => vh::w_halflock::main(rest),
         _ => {
             eprintln!("unknown workload {:?}", w);
